@@ -21,7 +21,10 @@ THEOREMS = ["ElfioVerif.C15.isolatedRead_state_independent", "ElfioVerif.C15.iso
             "ElfioVerif.C15.segGetData_lazy_eq_eager", "ElfioVerif.C15.seg_interleaving_eq",
             "ElfioVerif.C15.lazy_load_unreadable_segment_witness",
             "ElfioVerif.C15.rangeRep_of_entry", "ElfioVerif.C15.translated_read_eq",
-            "ElfioVerif.C15.translated_hdrRead_eq", "ElfioVerif.C15.lazy_eq_eager_wf"]
+            "ElfioVerif.C15.translated_hdrRead_eq", "ElfioVerif.C15.lazy_eq_eager_wf",
+            "ElfioVerif.C15.loadSectionsLoop_sim", "ElfioVerif.C15.loadNames_sim",
+            "ElfioVerif.C15.loadSegmentsLoop_sim", "ElfioVerif.C15.lazy_eq_eager",
+            "ElfioVerif.C15.lazy_eq_eager_obs", "ElfioVerif.C15.lazy_eq_eager_needs_ok"]
 SITES = ["conv", "load_s", "sec32_load", "sec64_load", "seg32_load", "seg64_load"]
 RULE = ("images: encoder-built well-formed (4 configurations), small bundled examples, and mutated images "
         "(tools/elfspec.mutate incl. truncation) — eager object vs lazy object under a random interleaving of "
